@@ -2,10 +2,10 @@ ID = "C14"
 CLUSTER = "trav"
 EXTRACT_V = "ExtractTrav.v"
 MODEL_DEPS = ["Base/Bytes.v", "Base/GoSem.v", "Gen/FromGo.v", "DM/Value.v", "Trav/Selector.v", "Trav/Walk.v",
-              "Trav/Controls.v", "Trav/Path.v"]
+              "Trav/Controls.v", "Trav/Path.v", "Trav/SelectorSpec.v", "Trav/QuirkFree.v"]
 DRIVER = "trav_driver"
 HARNESS = "c14"
-COUNTS = {"quick": 700, "thorough": 40000}
+COUNTS = {"quick": 700, "thorough": 50000}
 DESIGN_REF = "DESIGN.md §4 C14"
 TECHNIQUE = ("Coq proof (every path reported by the walk resolves with get to the visited node; get = fold of one-segment "
              "lookups; failure characterisation; path text round trip) + differential run of the extracted walk / get / "
